@@ -149,3 +149,40 @@ package k8s
 //@ func (*AdminNetworkPolicy).HasValidPriority
 //@   requires anp != nil
 //@   ensures [C19,C02] def: res == (0 <= anp.Spec.Priority && anp.Spec.Priority <= 1000)
+
+// ---------------------------------------------------------------------------------------------
+// Pods from decoded objects (C12: no field of a decoded object is assumed present; C17: one or two pods per workload)
+// ---------------------------------------------------------------------------------------------
+
+//@ import appsv1 "k8s.io/api/apps/v1"
+//@ import batchv1 "k8s.io/api/batch/v1"
+//@ import parser "github.com/np-guard/netpol-analyzer/pkg/manifests/parser"
+
+//@ func getReplicas
+//@   ensures [C12,C17] def: (r == nil ==> res == 1) && (r != nil ==> res == deref(r))
+
+// the dynamic type of the workload object agrees with its kind string (established by the type switch of InsertObject)
+//@ pred kindMatches(workload any, kind string) =
+//@        (kind == "ReplicaSet" ==> (dyntype(workload, *appsv1.ReplicaSet) && unwrap(workload, *appsv1.ReplicaSet) != nil))
+//@     && (kind == "Deployment" ==> (dyntype(workload, *appsv1.Deployment) && unwrap(workload, *appsv1.Deployment) != nil))
+//@     && (kind == "StatefulSet" ==> (dyntype(workload, *appsv1.StatefulSet) && unwrap(workload, *appsv1.StatefulSet) != nil))
+//@     && (kind == "DaemonSet" ==> (dyntype(workload, *appsv1.DaemonSet) && unwrap(workload, *appsv1.DaemonSet) != nil))
+//@     && (kind == "ReplicationController" ==> (dyntype(workload, *v1.ReplicationController) && unwrap(workload, *v1.ReplicationController) != nil))
+//@     && (kind == "CronJob" ==> (dyntype(workload, *batchv1.CronJob) && unwrap(workload, *batchv1.CronJob) != nil))
+//@     && (kind == "Job" ==> (dyntype(workload, *batchv1.Job) && unwrap(workload, *batchv1.Job) != nil))
+
+//@ func PodsFromWorkloadObject
+//@   requires kindMatches(workload, kind)
+//@   modifies *
+//@   ensures [C12,C17] count: res1 == nil ==> (1 <= len(res0) && len(res0) <= 2)
+//@   ensures [C12,C17] pods: res1 == nil ==> (forall k int :: {res0[k]} (0 <= k && k < len(res0)) ==> (res0[k] != nil && fresh(res0[k])))
+//@   ensures [C17] owner: res1 == nil ==> (forall k int :: {res0[k]} (0 <= k && k < len(res0)) ==> (res0[k].Owner.Kind == kind && !res0[k].FakePod
+//@         && res0[k].Namespace == res0[0].Namespace && res0[k].Owner.Name == res0[0].Owner.Name))
+//@   loop 1:
+//@     invariant idx: 1 <= index && index <= numReplicas + 1 && len(res) == numReplicas && 1 <= numReplicas && numReplicas <= 2
+//@     invariant pods: forall k int :: {res[k]} (0 <= k && k < index - 1) ==> (res[k] != nil && fresh(res[k]) && res[k].Owner.Kind == kind && !res[k].FakePod
+//@         && res[k].Namespace == workloadNamespace && res[k].Owner.Name == workloadName)
+//@   loop 2:
+//@     invariant pod: pod != nil && fresh(pod) && pod.Labels != nil && fresh(pod.Labels)
+//@   loop 3:
+//@     invariant pod: pod != nil && fresh(pod) && 0 - 1 <= rangeindex
